@@ -12,7 +12,7 @@ type PubkeyCache struct {
 	trustedParentCount ValidatorIndex
 	pub2idx            map[BLSPubkey]ValidatorIndex
 	// starting at trustedParentCount
-	idx2pub []CachedPubkey
+	idx2pub []*CachedPubkey
 	// Can have many reads concurrently, but only 1 write.
 	rwLock sync.RWMutex
 }
@@ -26,7 +26,7 @@ func NewPubkeyCache(vals ValidatorRegistry) (*PubkeyCache, error) {
 		parent:             nil,
 		trustedParentCount: 0,
 		pub2idx:            make(map[BLSPubkey]ValidatorIndex),
-		idx2pub:            make([]CachedPubkey, 0),
+		idx2pub:            make([]*CachedPubkey, 0),
 	}
 	currentCount := uint64(len(pc.idx2pub))
 	for i := currentCount; i < valCount; i++ {
@@ -40,7 +40,7 @@ func NewPubkeyCache(vals ValidatorRegistry) (*PubkeyCache, error) {
 			return nil, err
 		}
 		pc.pub2idx[pub] = idx
-		pc.idx2pub = append(pc.idx2pub, CachedPubkey{Compressed: pub})
+		pc.idx2pub = append(pc.idx2pub, &CachedPubkey{Compressed: pub})
 	}
 	return pc, nil
 }
@@ -50,7 +50,7 @@ func EmptyPubkeyCache() *PubkeyCache {
 		parent:             nil,
 		trustedParentCount: 0,
 		pub2idx:            make(map[BLSPubkey]ValidatorIndex),
-		idx2pub:            make([]CachedPubkey, 0),
+		idx2pub:            make([]*CachedPubkey, 0),
 	}
 }
 
@@ -69,7 +69,7 @@ func (pc *PubkeyCache) unsafePubkey(index ValidatorIndex) (pub *CachedPubkey, ok
 		if index >= pc.trustedParentCount+ValidatorIndex(len(pc.idx2pub)) {
 			return nil, false
 		}
-		return &pc.idx2pub[index-pc.trustedParentCount], true
+		return pc.idx2pub[index-pc.trustedParentCount], true
 	} else if pc.parent != nil {
 		return pc.parent.Pubkey(index)
 	} else {
@@ -103,60 +103,41 @@ func (pc *PubkeyCache) unsafeValidatorIndex(pubkey BLSPubkey) (index ValidatorIn
 // AddValidator appends the (index, pubkey) pair to the pubkey cache. It returns the same cache if the added entry is not conflicting.
 // If it conflicts, the part is inherited, and a forked pubkey cache is returned.
 func (pc *PubkeyCache) AddValidator(index ValidatorIndex, pub BLSPubkey) (*PubkeyCache, error) {
-	existingIndex, indexExists := pc.ValidatorIndex(pub)
-	existingPubkey, pubkeyExists := pc.Pubkey(index)
+	// The lookups and the append must be one critical section: otherwise two callers adding the next index
+	// at the same time both see "unknown", and the slower one fails with "missing earlier index".
+	pc.rwLock.Lock()
+	existingIndex, indexExists := pc.unsafeValidatorIndex(pub)
+	existingPubkey, pubkeyExists := pc.unsafePubkey(index)
 
+	forkAt, conflict := ValidatorIndex(0), false
+	if indexExists && existingIndex != index {
+		// conflict detected! Deposit log fork! Fork out the existing index, only trust the history.
+		forkAt, conflict = existingIndex, true
+	} else if pubkeyExists && existingPubkey.Compressed != pub {
+		// conflict detected! Deposit log fork! Fork out at the index, only trust the history.
+		forkAt, conflict = index, true
+	}
+	if conflict {
+		// Unlock before recursing: the forked cache reads this cache (its parent) through the locking getters.
+		pc.rwLock.Unlock()
+		forkedPc := &PubkeyCache{
+			parent:             pc,
+			trustedParentCount: forkAt,
+			pub2idx:            make(map[BLSPubkey]ValidatorIndex),
+			idx2pub:            make([]*CachedPubkey, 0),
+		}
+		return forkedPc.AddValidator(index, pub)
+	}
+	defer pc.rwLock.Unlock()
 	if indexExists {
-		if existingIndex != index {
-			// conflict detected! Deposit log fork!
-			forkedPc := &PubkeyCache{
-				parent: pc,
-				// fork out the existing index, only trust the history
-				trustedParentCount: existingIndex,
-				pub2idx:            make(map[BLSPubkey]ValidatorIndex),
-				idx2pub:            make([]CachedPubkey, 0),
-			}
-			// Do not have to unlock this cache (parent of forkedPc) early, as the forkedPc is guaranteed to handle it.
-			return forkedPc.AddValidator(index, pub)
-		}
-		if pubkeyExists {
-			if existingPubkey.Compressed != pub {
-				// conflict detected! Deposit log fork!
-				forkedPc := &PubkeyCache{
-					parent: pc,
-					// fork out the existing index, only trust the history
-					trustedParentCount: index,
-					pub2idx:            make(map[BLSPubkey]ValidatorIndex),
-					idx2pub:            make([]CachedPubkey, 0),
-				}
-				// Do not have to unlock this cache (parent of forkedPc) early, as the forkedPc is guaranteed to handle it.
-				return forkedPc.AddValidator(index, pub)
-			}
-		}
 		// append is no-op, validator already exists
 		return pc, nil
 	}
-	if pubkeyExists {
-		if existingPubkey.Compressed != pub {
-			// conflict detected! Deposit log fork!
-			forkedPc := &PubkeyCache{
-				parent: pc,
-				// fork out the existing index, only trust the history
-				trustedParentCount: index,
-				pub2idx:            make(map[BLSPubkey]ValidatorIndex),
-				idx2pub:            make([]CachedPubkey, 0),
-			}
-			// Do not have to unlock this cache (parent of forkedPc) early, as the forkedPc is guaranteed to handle it.
-			return forkedPc.AddValidator(index, pub)
-		}
-	}
-	pc.rwLock.Lock()
-	defer pc.rwLock.Unlock()
 	if expected := pc.trustedParentCount + ValidatorIndex(len(pc.idx2pub)); index != expected {
 		// index is unknown, but too far ahead of cache; in between indices are missing.
 		return nil, fmt.Errorf("AddValidator is incorrect, missing earlier index. got: (%d, %x), but currently expecting %d next", index, pub, expected)
 	}
-	pc.idx2pub = append(pc.idx2pub, CachedPubkey{Compressed: pub})
+	pc.idx2pub = append(pc.idx2pub, &CachedPubkey{Compressed: pub})
 	pc.pub2idx[pub] = index
 	return pc, nil
 }
